@@ -871,6 +871,10 @@ func (m *Manager) AddLocalForwardRoute(key, target string, metric uint16) bool {
 	if key == "" || target == "" {
 		return false
 	}
+	// Key and target travel with a one-byte length prefix in route advertisements.
+	if len(key) > MaxAdvertisedStringLen || len(target) > MaxAdvertisedStringLen {
+		return false
+	}
 
 	m.mu.Lock()
 	m.sequence++
